@@ -3,11 +3,14 @@ package main
 
 import (
 	"bytes"
+	"encoding/base64"
+	"encoding/json"
 	"errors"
 	"fmt"
 	"math"
 	"strconv"
 	"strings"
+	"sync"
 
 	"github.com/safing/portbase/container"
 	"github.com/safing/portbase/formats/varint"
@@ -16,8 +19,16 @@ import (
 )
 
 type exec struct {
-	c    *container.Container
-	kept *container.Container // most recently split-off container, read again later (kdump)
+	c     *container.Container   // the current container (= conts[cur])
+	conts []*container.Container // all live containers of the case
+	cur   int
+	kept  *container.Container // most recently split-off container, read again later (kdump)
+	held []heldSlice          // the most recent byte slices the container handed out, looked at again later (held)
+}
+
+type heldSlice struct {
+	data []byte
+	was  string
 }
 
 func errStr(err error) string {
@@ -47,7 +58,25 @@ func (e *exec) Do(line string) string {
 	}
 	if f[0] == "new" {
 		e.c = container.New(hexes(f[1:])...)
+		e.conts, e.cur = []*container.Container{e.c}, 0
 		e.kept = nil
+		e.held = nil
+		return "ok"
+	}
+	if f[0] == "conc" && len(f) == 4 { // implementation only: conc <goroutines> <steps> <seed>
+		n, _ := strconv.Atoi(f[1])
+		steps, _ := strconv.Atoi(f[2])
+		seed, _ := strconv.ParseUint(f[3], 10, 64)
+		if n < 1 || n > 64 {
+			return "bad-op"
+		}
+		return concurrentQueues(n, steps, seed)
+	}
+	if f[0] == "newc" { // the deprecated second constructor
+		e.c = container.NewContainer(hexes(f[1:])...)
+		e.conts, e.cur = []*container.Container{e.c}, 0
+		e.kept = nil
+		e.held = nil
 		return "ok"
 	}
 	c := e.c
@@ -56,8 +85,51 @@ func (e *exec) Do(line string) string {
 	}
 	atoi := func() int { n, _ := strconv.ParseInt(f[1], 10, 64); return int(n) }
 	atou := func() uint64 { n, _ := strconv.ParseUint(f[1], 10, 64); return n }
-	b := func(x []byte) string { return "b " + hxlib.Hex(x) }
+	b := func(x []byte) string {
+		if len(x) > 0 {
+			e.held = append(e.held, heldSlice{x, hxlib.Hex(x)})
+			if len(e.held) > 6 {
+				e.held = e.held[1:]
+			}
+		}
+		return "b " + hxlib.Hex(x)
+	}
 	switch f[0] {
+	case "also": // a further live container; the current one stays current
+		e.conts = append(e.conts, container.New(hexes(f[1:])...))
+		return "ok"
+	case "sel":
+		i := atoi()
+		if i < 0 || i >= len(e.conts) {
+			return "bad-op"
+		}
+		e.cur, e.c = i, e.conts[i]
+		return "ok"
+	case "appendfrom", "appendfromblock": // the argument is another live container in whatever state it is
+		j := atoi()
+		if j < 0 || j >= len(e.conts) {
+			return "bad-op"
+		}
+		if f[0] == "appendfrom" {
+			c.AppendContainer(e.conts[j])
+		} else {
+			c.AppendContainerAsBlock(e.conts[j])
+		}
+		return "ok"
+	case "keepslot": // the split-off container becomes a further live container
+		if e.kept == nil {
+			return "nil"
+		}
+		e.conts = append(e.conts, e.kept)
+		e.kept = nil // moved, not shared: one container object is never held in two slots
+		return "ok"
+	case "held": // the slices handed out earlier must still hold what they held when they were returned
+		for _, h := range e.held {
+			if now := hxlib.Hex(h.data); now != h.was {
+				return "changed: a slice returned as " + h.was + " now reads " + now
+			}
+		}
+		return "same"
 	case "append":
 		c.Append(hxlib.UnHex(f[1]))
 	case "prepend":
@@ -80,6 +152,21 @@ func (e *exec) Do(line string) string {
 		c.AppendContainerAsBlock(container.New(hexes(f[1:])...))
 	case "prependlen":
 		c.PrependLength()
+	case "appendpack8", "appendpack16", "appendpack32", "prependpack8", "prependpack16", "prependpack32":
+		var enc []byte
+		switch strings.TrimLeft(f[0], "apenrd") { // "pack8" → "ck8" etc.
+		case "ck8":
+			enc = varint.Pack8(uint8(atou()))
+		case "ck16":
+			enc = varint.Pack16(uint16(atou()))
+		default:
+			enc = varint.Pack32(uint32(atou()))
+		}
+		if strings.HasPrefix(f[0], "append") {
+			c.Append(enc)
+		} else {
+			c.Prepend(enc)
+		}
 	case "replace":
 		c.Replace(hxlib.UnHex(f[1]))
 	case "compile":
@@ -166,6 +253,52 @@ func (e *exec) Do(line string) string {
 		return "f"
 	case "len":
 		return "n " + strconv.Itoa(c.Length())
+	case "json", "jsonm": // serialization.go, called directly / through encoding/json as callers do
+		var js []byte
+		var err error
+		if f[0] == "json" {
+			js, err = c.MarshalJSON()
+		} else {
+			js, err = json.Marshal(c)
+		}
+		if err != nil {
+			return "err other:" + err.Error()
+		}
+		if string(js) == "null" {
+			// canonicalisation: a container whose only compartment is a nil slice serialises as null, one
+			// whose only compartment is an empty non-nil slice as "" — both are the empty byte string
+			// (the model has no nil/empty distinction)
+			js = []byte(`""`)
+		}
+		return b(js)
+	case "unjson", "unjsonm":
+		var err error
+		if f[0] == "unjson" {
+			err = c.UnmarshalJSON(hxlib.UnHex(f[1]))
+		} else {
+			err = json.Unmarshal(hxlib.UnHex(f[1]), c)
+		}
+		if err != nil {
+			return "err json"
+		}
+		return "ok"
+	case "writeto", "writetox":
+		// WriteAllTo into a writer that accepts f[1] bytes in total and then fails with a short write;
+		// writetox: the writer additionally takes at most f[2] bytes per call (short writes WITHOUT an error,
+		// which the io.Writer contract forbids but the loop in WriteAllTo tolerates)
+		w := &budgetWriter{budget: atoi(), chunk: 1 << 30}
+		if f[0] == "writetox" {
+			w.chunk, _ = strconv.Atoi(f[2])
+		}
+		err := c.WriteAllTo(w)
+		if err != nil && !errors.Is(err, errWriterFull) {
+			return "err other:" + err.Error()
+		}
+		t := "t"
+		if err != nil {
+			t = "f"
+		}
+		return "wts " + hxlib.Hex(w.buf) + " " + t
 	case "dump":
 		var buf bytes.Buffer
 		if err := c.WriteAllTo(&buf); err != nil {
@@ -176,6 +309,140 @@ func (e *exec) Do(line string) string {
 		return "bad-op"
 	}
 	return "ok"
+}
+
+// concurrentQueues: containers are independent objects in the model (no state shared between containers). n
+// goroutines each drive a container of their own next to a plain byte queue of their own and compare every
+// result. Returns "ok" or the first failure.
+func concurrentQueues(n, steps int, seed uint64) string {
+	var wg sync.WaitGroup
+	start := make(chan struct{})
+	fails := make(chan string, n)
+	for g := 0; g < n; g++ {
+		wg.Add(1)
+		go func(g int) {
+			defer wg.Done()
+			defer func() {
+				if r := recover(); r != nil {
+					fails <- fmt.Sprintf("PANIC g=%d: %v", g, r)
+				}
+			}()
+			x := seed*0x9E3779B97F4A7C15 + uint64(g)*0xD1B54A32D192ED03 + 1
+			next := func() uint64 { x ^= x << 13; x ^= x >> 7; x ^= x << 17; return x }
+			c := container.New()
+			var q []byte
+			fail := func(it int, what string) { fails <- fmt.Sprintf("FAIL g=%d step=%d %s", g, it, what) }
+			<-start
+			for it := 0; it < steps; it++ {
+				r := next()
+				sl := bytes.Repeat([]byte{byte(g*16 + it%16)}, int(r>>8)%9)
+				switch r % 9 {
+				case 0:
+					c.Append(sl)
+					q = append(q, sl...)
+				case 1:
+					c.Prepend(sl)
+					q = append(append([]byte{}, sl...), q...)
+				case 2:
+					v := next() >> (r >> 16 % 64)
+					c.AppendNumber(v)
+					q = append(q, refPut(v)...)
+				case 3:
+					c.PrependLength()
+					q = append(refPut(uint64(len(q))), q...)
+				case 4:
+					c.AppendAsBlock(sl)
+					q = append(append(q, refPut(uint64(len(sl)))...), sl...)
+				case 5:
+					k := int(r>>8) % 7
+					d, err := c.Get(k)
+					if k > len(q) {
+						if err == nil {
+							fail(it, "Get beyond the end succeeded")
+							return
+						}
+						continue
+					}
+					if err != nil || !bytes.Equal(d, q[:k]) {
+						fail(it, fmt.Sprintf("Get(%d) = %x, %v; byte queue has %x", k, d, err, q[:k]))
+						return
+					}
+					q = q[k:]
+				case 6:
+					v, err := c.GetNextN64()
+					w, used, e := uvar(q, 10, math.MaxUint64)
+					if e != "" {
+						if err == nil {
+							fail(it, "GetNextN64 decoded something a byte queue cannot decode")
+							return
+						}
+						continue
+					}
+					if err != nil || v != w {
+						fail(it, fmt.Sprintf("GetNextN64 = %d, %v; byte queue has %d", v, err, w))
+						return
+					}
+					q = q[used:]
+				case 7:
+					if d := c.CompileData(); !bytes.Equal(d, q) {
+						fail(it, fmt.Sprintf("CompileData = %x, byte queue has %x", d, q))
+						return
+					}
+				default:
+					if c.Length() != len(q) {
+						fail(it, fmt.Sprintf("Length = %d, byte queue has %d", c.Length(), len(q)))
+						return
+					}
+					if len(q) > 400 {
+						d := c.GetAll()
+						if !bytes.Equal(d, q) {
+							fail(it, "GetAll differs from the byte queue")
+							return
+						}
+						q = nil
+					}
+				}
+			}
+		}(g)
+	}
+	close(start)
+	wg.Wait()
+	close(fails)
+	for f := range fails {
+		return f
+	}
+	return "ok"
+}
+
+var errWriterFull = errors.New("writer full")
+
+type budgetWriter struct {
+	buf    []byte
+	budget int
+	chunk  int
+	calls  int
+}
+
+func (w *budgetWriter) Write(p []byte) (int, error) {
+	w.calls++
+	if w.calls > 1<<20 {
+		panic("WriteAllTo does not terminate")
+	}
+	n := len(p)
+	short := false
+	if n > w.chunk {
+		n = w.chunk
+	}
+	if n > w.budget {
+		n = w.budget
+		short = true
+	}
+	w.buf = append(w.buf, p[:n]...)
+	w.budget -= n
+	if short {
+		return n, errWriterFull
+	}
+	return n, nil
 }
 
 // dumpOf reads a container without consuming or restructuring it.
@@ -211,8 +478,20 @@ func uvar(q []byte, k int, limit uint64) (uint64, int, string) {
 	return 0, 0, "small"
 }
 
+// refPut: base-128 little-endian groups with continuation bits — the monitor's own encoder.
+func refPut(n uint64) []byte {
+	var o []byte
+	for n >= 0x80 {
+		o = append(o, byte(n)|0x80)
+		n >>= 7
+	}
+	return append(o, byte(n))
+}
+
 func monitor(c hxlib.Case, outs []string) (vs []hxlib.Violation) {
-	var q []byte
+	var q []byte      // the current byte queue
+	var qs [][]byte   // the other live queues (qs[cur] is stale while q is current)
+	cur := 0
 	var kept []byte
 	haveKept := false
 	started := false
@@ -230,6 +509,18 @@ func monitor(c hxlib.Case, outs []string) (vs []hxlib.Violation) {
 		if o == "bad-op" {
 			continue
 		}
+		if f[0] == "held" {
+			if o != "same" {
+				add(i, "returned-data-changed-later", o)
+			}
+			continue
+		}
+		if f[0] == "conc" {
+			if o != "ok" {
+				add(i, "concurrent-containers", o)
+			}
+			continue
+		}
 		want := "ok"
 		atoi := func() int { n, _ := strconv.ParseInt(f[1], 10, 64); return int(n) }
 		atou := func() uint64 { n, _ := strconv.ParseUint(f[1], 10, 64); return n }
@@ -243,10 +534,59 @@ func monitor(c hxlib.Case, outs []string) (vs []hxlib.Violation) {
 		}
 		take := func(n int) []byte { return append([]byte{}, q[:n]...) }
 		switch f[0] {
-		case "new":
+		case "new", "newc":
 			q = cat(f[1:])
+			qs, cur = [][]byte{nil}, 0
 			started = true
 			haveKept = false
+		case "also":
+			qs = append(qs, cat(f[1:]))
+		case "sel":
+			if i := atoi(); i >= 0 && i < len(qs) {
+				qs[cur] = q
+				cur, q = i, append([]byte{}, qs[i]...)
+			} else {
+				want = "bad-op"
+			}
+		case "appendfrom", "appendfromblock":
+			if j := atoi(); j >= 0 && j < len(qs) {
+				qs[cur] = q
+				other := append([]byte{}, qs[j]...)
+				if f[0] == "appendfromblock" {
+					q = append(q, refPut(uint64(len(other)))...)
+				}
+				q = append(q, other...)
+			} else {
+				want = "bad-op"
+			}
+		case "keepslot":
+			if haveKept {
+				qs = append(qs, append([]byte{}, kept...))
+				haveKept = false
+			} else {
+				want = "nil"
+			}
+		case "json", "jsonm":
+			want = hx([]byte(`"` + base64.StdEncoding.EncodeToString(q) + `"`))
+		case "unjson", "unjsonm":
+			// reference: what the JSON codec itself makes of the text as a byte string
+			var raw []byte
+			if err := json.Unmarshal(hxlib.UnHex(f[1]), &raw); err != nil {
+				want = "err json" // the container must stay as it was (checked by the following lines)
+			} else {
+				q = append([]byte{}, raw...)
+			}
+		case "writeto", "writetox":
+			n := atoi()
+			t := "f"
+			if n >= len(q) {
+				n = len(q)
+				t = "t"
+			}
+			if n < 0 {
+				n = 0
+			}
+			want = "wts " + hxlib.Hex(take(n)) + " " + t
 		case "kdump":
 			want = "nil"
 			if haveKept {
@@ -257,26 +597,30 @@ func monitor(c hxlib.Case, outs []string) (vs []hxlib.Violation) {
 		case "prepend":
 			q = append(hxlib.UnHex(f[1]), q...)
 		case "appendnum":
-			q = append(q, varint.Pack64(atou())...)
+			q = append(q, refPut(atou())...)
 		case "prependnum":
-			q = append(varint.Pack64(atou()), q...)
+			q = append(refPut(atou()), q...)
 		case "appendint":
-			q = append(q, varint.Pack64(uint64(atoi()))...)
+			q = append(q, refPut(uint64(atoi()))...)
 		case "prependint":
-			q = append(varint.Pack64(uint64(atoi())), q...)
+			q = append(refPut(uint64(atoi())), q...)
 		case "appendblock":
 			d := hxlib.UnHex(f[1])
-			q = append(append(q, varint.Pack64(uint64(len(d)))...), d...)
+			q = append(append(q, refPut(uint64(len(d)))...), d...)
 		case "prependblock":
 			d := hxlib.UnHex(f[1])
-			q = append(append(varint.Pack64(uint64(len(d))), d...), q...)
+			q = append(append(refPut(uint64(len(d))), d...), q...)
 		case "appendcont":
 			q = append(q, cat(f[1:])...)
 		case "appendcontblock":
 			d := cat(f[1:])
-			q = append(append(q, varint.Pack64(uint64(len(d)))...), d...)
+			q = append(append(q, refPut(uint64(len(d)))...), d...)
+		case "appendpack8", "appendpack16", "appendpack32":
+			q = append(q, refPut(atou())...)
+		case "prependpack8", "prependpack16", "prependpack32":
+			q = append(refPut(atou()), q...)
 		case "prependlen":
-			q = append(varint.Pack64(uint64(len(q))), q...)
+			q = append(refPut(uint64(len(q))), q...)
 		case "replace":
 			q = hxlib.UnHex(f[1])
 		case "compile", "dump":
@@ -438,6 +782,8 @@ func generate(r *hxlib.Run, emit func(hxlib.Case)) {
 		{"new 8080808080808080807f 0102", "block", "dump"},
 		{"new 8080808080800100 01", "blockcont", "dump"},
 		{"new 0102", "get 9223372036854775807", "getmax 9223372036854775807", "len"},
+		{"new 01", "prepend 02", "unjson 2241513d3d22", "len", "dump", "prepend 03", "dump"},
+		{"newc 01 -", "get 1", "unjsonm 6e756c6c", "len", "json", "prependlen", "jsonm", "writeto 0", "writeto 1"},
 	}
 	for _, c := range corpus {
 		emit(hxlib.Case{Lines: c, NonTrivial: true, Kind: "corpus"})
@@ -547,16 +893,202 @@ func generate(r *hxlib.Run, emit func(hxlib.Case)) {
 		lines = append(lines, "len", "dump", "kdump")
 		emit(hxlib.Case{Lines: lines, NonTrivial: true, Kind: "split-then-modify"})
 	}
+	// operations that take ANOTHER container as their argument: 2–4 live containers, each with a history of its
+	// own (consumed compartments, offset > 0, spare slots in front after a prepend, split-off containers), handed
+	// to each other — and to themselves — in whatever state they are
+	for i := 0; i < r.Budget(2500, 100000); i++ {
+		lines := []string{strings.TrimSpace([]string{"new", "newc"}[rng.Intn(2)] + " " + slices() + " " + slice())}
+		n := 1
+		for j := 0; j < 1+rng.Intn(3); j++ {
+			lines = append(lines, strings.TrimSpace("also "+slices()+" "+slice()))
+			n++
+		}
+		for j := 0; j < 4+rng.Intn(16); j++ {
+			switch rng.Intn(16) {
+			case 0, 1:
+				lines = append(lines, "sel "+strconv.Itoa(rng.Intn(n)))
+			case 2, 3, 4:
+				lines = append(lines, "get "+strconv.Itoa(1+rng.Intn(20)))
+			case 5:
+				lines = append(lines, "prepend "+slice())
+			case 6:
+				lines = append(lines, "getmax "+strconv.Itoa(1+rng.Intn(20)))
+			case 7:
+				lines = append(lines, "wts "+strconv.Itoa(1+rng.Intn(20)))
+			case 8:
+				lines = append(lines, []string{"n8", "n64", "block", "getall", "compile", "prependlen"}[rng.Intn(6)])
+			case 9:
+				lines = append(lines, "getcont "+strconv.Itoa(1+rng.Intn(12)), "keepslot")
+				n++ // optimistic: if the split failed, the slot index is simply out of range later (bad-op on both sides)
+			case 10:
+				lines = append(lines, "append "+slice())
+			default:
+				lines = append(lines, []string{"appendfrom ", "appendfrom ", "appendfromblock "}[rng.Intn(3)]+strconv.Itoa(rng.Intn(n)), "len")
+			}
+			if j%5 == 4 {
+				lines = append(lines, "len", "dump")
+			}
+		}
+		for k := 0; k < n; k++ {
+			lines = append(lines, "sel "+strconv.Itoa(k), "len", "dump")
+		}
+		lines = append(lines, "held")
+		emit(hxlib.Case{Lines: lines, NonTrivial: true, Kind: "container-arguments"})
+	}
+	// JSON round trip (serialization.go): a container with history is serialised; the text is read back into
+	// the same container later, or into another container that has been used before (offset > 0, spare slots)
+	for i := 0; i < r.Budget(1500, 60000); i++ {
+		ctor := []string{"new", "newc"}[rng.Intn(2)]
+		lines := []string{strings.TrimSpace(ctor + " " + slices())}
+		for j := 0; j < rng.Intn(5); j++ {
+			switch rng.Intn(5) {
+			case 0:
+				lines = append(lines, "append "+slice())
+			case 1:
+				lines = append(lines, "prepend "+slice())
+			case 2:
+				lines = append(lines, "get "+strconv.Itoa(rng.Intn(6)))
+			case 3:
+				lines = append(lines, "prependnum "+num())
+			default:
+				lines = append(lines, "wts "+strconv.Itoa(rng.Intn(9)))
+			}
+		}
+		e := &exec{}
+		for _, l := range lines {
+			e.Do(l)
+		}
+		js := []string{"json", "jsonm"}[rng.Intn(2)]
+		text := strings.TrimPrefix(e.Do(js), "b ") // generator may call the implementation to learn the text
+		lines = append(lines, js, "len", "dump")
+		if rng.Intn(2) == 0 { // a second, used container takes the text
+			lines = append(lines, strings.TrimSpace([]string{"new", "newc"}[rng.Intn(2)]+" "+slices()))
+		}
+		for j := 0; j < rng.Intn(4); j++ {
+			switch rng.Intn(4) {
+			case 0:
+				lines = append(lines, "prepend "+slice())
+			case 1:
+				lines = append(lines, "get "+strconv.Itoa(1+rng.Intn(20)))
+			case 2:
+				lines = append(lines, "prependlen")
+			default:
+				lines = append(lines, "append "+slice())
+			}
+		}
+		un := []string{"unjson ", "unjsonm "}[rng.Intn(2)]
+		if rng.Intn(8) == 0 {
+			lines = append(lines, un+hxlib.Hex(canonicalJSON(rng)), "len", "dump")
+		}
+		lines = append(lines, un+text, "len", "holds", "dump")
+		for j := 0; j < 1+rng.Intn(4); j++ {
+			switch rng.Intn(6) {
+			case 0:
+				lines = append(lines, "prepend "+slice())
+			case 1:
+				lines = append(lines, "append "+slice())
+			case 2:
+				lines = append(lines, "get "+strconv.Itoa(rng.Intn(6)))
+			case 3:
+				lines = append(lines, "n64")
+			case 4:
+				lines = append(lines, "writeto "+strconv.Itoa(rng.Intn(12)))
+			default:
+				lines = append(lines, js)
+			}
+			lines = append(lines, "len")
+		}
+		lines = append(lines, "len", "dump")
+		emit(hxlib.Case{Lines: lines, NonTrivial: true, Kind: "json-roundtrip"})
+	}
+	// JSON texts outside the modelled codec (white space, escapes, line breaks inside the string, arrays of
+	// numbers, other JSON values, broken syntax): implementation only; the monitor's reference is the JSON
+	// codec itself applied to a byte slice; after an error the container must be as before
+	for i := 0; i < r.Budget(1500, 60000); i++ {
+		lines := []string{strings.TrimSpace([]string{"new", "newc"}[rng.Intn(2)] + " " + slices())}
+		for j := 0; j < rng.Intn(3); j++ {
+			lines = append(lines, []string{"prepend " + slice(), "get " + strconv.Itoa(1+rng.Intn(9)), "append " + slice()}[rng.Intn(3)])
+		}
+		for j := 0; j < 1+rng.Intn(3); j++ {
+			lines = append(lines, []string{"unjson ", "unjsonm "}[rng.Intn(2)]+hxlib.Hex(oddJSON(rng)), "len", "dump")
+			if rng.Intn(2) == 0 {
+				lines = append(lines, "prepend "+slice(), "len", "get 2", "dump")
+			}
+		}
+		emit(hxlib.Case{Lines: lines, NonTrivial: true, Kind: "json-outside-model", NoModel: true})
+	}
+	// writers that take a few bytes per call without reporting an error (short writes), with and without a
+	// total budget: implementation only
+	for i := 0; i < r.Budget(800, 30000); i++ {
+		lines := []string{strings.TrimSpace([]string{"new", "newc"}[rng.Intn(2)] + " " + slices())}
+		for j := 0; j < rng.Intn(4); j++ {
+			lines = append(lines, []string{"prepend " + slice(), "get " + strconv.Itoa(1+rng.Intn(9)), "append " + slice(), "append -"}[rng.Intn(4)])
+		}
+		for j := 0; j < 1+rng.Intn(3); j++ {
+			lines = append(lines, fmt.Sprintf("writetox %d %d", []int{0, 1, 5, 17, 1000}[rng.Intn(5)], 1+rng.Intn(7)), "len", "dump")
+		}
+		emit(hxlib.Case{Lines: lines, NonTrivial: true, Kind: "short-writer", NoModel: true})
+	}
+	// numbers of the narrow widths: written with Pack8/16/32, read back with the matching and with narrower
+	// readers (a value too large for the reader is an error and must leave the queue as it was)
+	for i := 0; i < r.Budget(1000, 40000); i++ {
+		lines := []string{[]string{"new", "newc"}[rng.Intn(2)]}
+		type wn struct {
+			w int
+			n uint64
+		}
+		var put []wn
+		for j := 0; j < 1+rng.Intn(6); j++ {
+			w := []int{8, 16, 32}[rng.Intn(3)]
+			n := rng.Uint64() >> uint(64-w) >> uint(rng.Intn(w))
+			if rng.Intn(4) == 0 {
+				n = []uint64{0, 127, 128, 255, 256, 16383, 16384, 65535, 65536, 2097151, 2097152, 1<<32 - 1}[rng.Intn(12)] & (1<<uint(w) - 1)
+			}
+			if rng.Intn(5) == 0 {
+				lines = append(lines, fmt.Sprintf("prependpack%d %d", w, n))
+				put = append([]wn{{w, n}}, put...)
+			} else {
+				lines = append(lines, fmt.Sprintf("appendpack%d %d", w, n))
+				put = append(put, wn{w, n})
+			}
+		}
+		if rng.Intn(3) == 0 {
+			lines = append(lines, "append "+slice())
+		}
+		for _, p := range put {
+			rd := p.w
+			if rng.Intn(3) == 0 {
+				rd = []int{8, 16, 32, 64}[rng.Intn(4)]
+			}
+			lines = append(lines, fmt.Sprintf("n%d", rd))
+			if rng.Intn(4) == 0 {
+				lines = append(lines, "len")
+			}
+		}
+		lines = append(lines, "len", "dump")
+		emit(hxlib.Case{Lines: lines, NonTrivial: true, Kind: "narrow-numbers"})
+	}
+	// containers are independent objects in the model: goroutines driving containers of their own next to byte
+	// queues of their own (implementation only)
+	for i := 0; i < r.Budget(5, 40); i++ {
+		emit(hxlib.Case{Lines: []string{fmt.Sprintf("conc %d %d %d", []int{2, 4, 8, 16, 32}[rng.Intn(5)], r.Budget(20000, 200000), rng.Intn(1000))},
+			NonTrivial: true, Kind: "concurrent-containers", NoModel: true})
+	}
 	N := r.Budget(20000, 1500000)
 	for i := 0; i < N; i++ {
 		var lines []string
+		ctor := "new"
+		if rng.Intn(4) == 0 {
+			ctor = "newc"
+		}
+		r.Count("ctor:" + ctor)
 		switch rng.Intn(4) {
 		case 0:
-			lines = append(lines, "new")
+			lines = append(lines, ctor)
 		case 1:
-			lines = append(lines, "new "+slice())
+			lines = append(lines, ctor+" "+slice())
 		default:
-			lines = append(lines, strings.TrimSpace("new "+slices()+" "+slice()))
+			lines = append(lines, strings.TrimSpace(ctor+" "+slices()+" "+slice()))
 		}
 		maxOps := 60
 		if r.Thorough && rng.Intn(20) == 0 {
@@ -591,7 +1123,14 @@ func generate(r *hxlib.Run, emit func(hxlib.Case)) {
 				return strconv.Itoa(rng.Intn(20))
 			}
 			var l string
-			switch k := rng.Intn(34); k {
+			switch k := rng.Intn(38); k {
+			case 34:
+				l = []string{"json", "jsonm"}[rng.Intn(2)]
+			case 35:
+				l = []string{"unjson ", "unjsonm "}[rng.Intn(2)] + hxlib.Hex(canonicalJSON(rng))
+				adding++
+			case 36, 37:
+				l = "writeto " + strings.TrimPrefix(ln(), "-")
 			case 0, 1:
 				l = "append " + slice()
 				adding++
@@ -687,19 +1226,91 @@ func generate(r *hxlib.Run, emit func(hxlib.Case)) {
 			lines = append(lines, l)
 			r.Count("op:" + strings.Fields(l)[0])
 			if j%8 == 7 {
-				lines = append(lines, "len", "holds", "dump")
+				lines = append(lines, "len", "holds", "dump", "held")
 			}
 			held = (held + rng.Intn(12)) % 64
 		}
-		lines = append(lines, "len", "dump")
+		lines = append(lines, "len", "dump", "held")
 		emit(hxlib.Case{Lines: lines, NonTrivial: consuming > 0 && adding > 0 && prepends > 0, Kind: "random-sequence"})
 	}
+}
+
+// canonicalJSON: a text inside the modelled codec — null, or a quoted string over the base64 alphabet and '=':
+// mostly the encoding of random bytes, sometimes damaged (wrong length, padding in the wrong place, data after
+// the padding, unused trailing bits set).
+func canonicalJSON(rng interface{ Intn(int) int }) []byte {
+	if rng.Intn(12) == 0 {
+		return []byte("null")
+	}
+	raw := make([]byte, []int{0, 1, 2, 3, 4, 5, 6, 7, 30, 31, 32}[rng.Intn(11)])
+	for i := range raw {
+		raw[i] = byte(rng.Intn(256))
+	}
+	s := []byte(base64.StdEncoding.EncodeToString(raw))
+	const alpha = "ABCDEFGHIJKLMNOPQRSTUVWXYZabcdefghijklmnopqrstuvwxyz0123456789+/="
+	if len(s) > 0 {
+		switch rng.Intn(8) {
+		case 0:
+			s[rng.Intn(len(s))] = '='
+		case 1:
+			s = s[:len(s)-1-rng.Intn(2)]
+		case 2:
+			s = append(s, alpha[rng.Intn(len(alpha))])
+		case 3:
+			s[rng.Intn(len(s))] = alpha[rng.Intn(len(alpha))]
+		case 4:
+			s = append(s, s[:4]...)
+		}
+	}
+	return []byte(`"` + string(s) + `"`)
+}
+
+// oddJSON: JSON texts (and non-JSON) that the model does not decide.
+func oddJSON(rng interface{ Intn(int) int }) []byte {
+	raw := make([]byte, rng.Intn(9))
+	for i := range raw {
+		raw[i] = byte(rng.Intn(256))
+	}
+	b64 := base64.StdEncoding.EncodeToString(raw)
+	switch rng.Intn(14) {
+	case 0:
+		return []byte(" \n\t\"" + b64 + "\" \r\n")
+	case 1:
+		arr, _ := json.Marshal(func() []int { o := make([]int, len(raw)); for i, x := range raw { o[i] = int(x) }; return o }())
+		return arr
+	case 2:
+		return []byte("[1, 256, -1]")
+	case 3:
+		if len(b64) > 2 {
+			return []byte(`"` + b64[:2] + "\\n" + b64[2:] + `"`) // escaped line break inside the string: base64 skips it
+		}
+		return []byte(`"\n"`)
+	case 4:
+		return []byte(`"\u0051\u0051=="`)
+	case 5:
+		return []byte(`{"a":1}`)
+	case 6:
+		return []byte("12")
+	case 7:
+		return []byte(`"` + b64) // unterminated
+	case 8:
+		return nil
+	case 9:
+		return []byte(`"` + strings.ReplaceAll(b64, "=", "") + `"`) // unpadded
+	case 10:
+		return []byte(`"` + strings.NewReplacer("+", "-", "/", "_").Replace(b64) + `-_"`) // URL alphabet
+	case 11:
+		return []byte("true")
+	case 12:
+		return []byte(`"` + b64 + `" x`)
+	}
+	return raw
 }
 
 func main() {
 	hxlib.Main(&hxlib.Harness{
 		Prop:     "C16",
-		Rule:     "(also: containers with 90–230 compartments consumed piecewise; split-off containers read again after the parent was modified) each case creates a container (empty / one slice / many slices incl. empty ones) and applies 1–60 (thorough: up to 400) random public method calls with slices of length 0, 1, 2–16, 200, numbers at all varint boundaries up to 2^64-1, requested lengths from {-5,-1,0,1,exact,exact±1,huge,MinInt}; Length/HoldsData/full dump after every 8th op and at the end. Non-trivial: at least one consuming op after at least one append and one prepend (so more than one compartment and the offset machinery are exercised); distinct by hash of the op lines.",
+		Rule:     "(also: 2–4 live containers per case, each with a history of its own, handed to each other and to themselves through AppendContainer/AppendContainerAsBlock in whatever state they are, incl. split-off containers) (also: 2–32 goroutines each driving a container of their own next to a byte queue of their own — ties that containers share no state) (also: both constructors New/NewContainer; MarshalJSON/UnmarshalJSON directly and through encoding/json, round trip into the same and into another used container, damaged base64 texts; JSON texts outside the modelled codec and short-writing writers on the implementation only; WriteAllTo into writers that fail after k bytes) (also: containers with 90–230 compartments consumed piecewise; split-off containers read again after the parent was modified) each case creates a container (empty / one slice / many slices incl. empty ones) and applies 1–60 (thorough: up to 400) random public method calls with slices of length 0, 1, 2–16, 200, numbers at all varint boundaries up to 2^64-1, requested lengths from {-5,-1,0,1,exact,exact±1,huge,MinInt}; Length/HoldsData/full dump after every 8th op and at the end. Non-trivial: at least one consuming op after at least one append and one prepend (so more than one compartment and the offset machinery are exercised); distinct by hash of the op lines.",
 		Generate: generate,
 		NewExec:  func(*hxlib.Run) hxlib.Exec { return &exec{} },
 		Monitor:  monitor,
